@@ -30,8 +30,14 @@ def _ns_ensures(a, r):
     # helper clauses for callers (derived from the code): a bound that is already a non-negative int is returned unchanged
     if a.index.start is not None:
         out.append(("post.slice.start_kept", Implies(a.index.start >= 0, r.start == a.index.start)))
+        out.append(("post.slice.start_from_the_end", Implies(a.index.start < 0, r.start == S.Max(0, L + a.index.start))))
+    else:
+        out.append(("post.slice.start_open", r.start == 0))
     if a.index.stop is not None:
         out.append(("post.slice.stop_kept", Implies(a.index.stop >= 0, r.stop == a.index.stop)))
+        out.append(("post.slice.stop_from_the_end", Implies(a.index.stop < 0, r.stop == S.Max(0, L + a.index.stop))))
+    else:
+        out.append(("post.slice.stop_open", r.stop == L))
     return out
 
 
@@ -58,8 +64,11 @@ normalize_slice = Contract(
 interval_overlap = Contract(
     M + "interval_overlap", "C10", ["a", "b", "x", "y"],
     shapes=[Shape("ints", dict(a=_I(), b=_I(), x=_I(), y=_I()))],
-    requires=lambda a: And(a.a <= a.b, a.x <= a.y),
-    ensures=lambda a, r: [("post.overlap", r == S.Max(0, S.Min(a.b, a.y) - S.Max(a.a, a.x)))],
+    requires=lambda a: a.a <= a.b,
+    # (helper clause derived from the code, for the cutter when it is asked for an empty range start > end: a character at most
+    #  two columns wide never has a < y < x < b, so the reversed request always overlaps by 0)
+    ensures=lambda a, r: [("post.overlap", Implies(a.x <= a.y, r == S.Max(0, S.Min(a.b, a.y) - S.Max(a.a, a.x)))),
+                          ("post.empty_request", Implies(And(a.x > a.y, Or(a.b <= a.x, a.a >= a.y)), r == 0))],
     result=IntT())
 
 
